@@ -31,7 +31,7 @@ const prop = "C07"
 func TestMain(m *testing.M) {
 	core.DeclareFaults("F1-writer-error", "F1-partial-accept", "F2-reader-error", "F3-cut", "F4-drop", "F4-dup", "F4-swap", "F4-splice",
 		"F5-append", "F6-flip", "F7-aad", "F8-key", "src-short-read", "src-zero-read", "src-eof-with-data")
-	core.DeclareProbes("neighbour-writer-open-across-the-judged-stream", "stream-of-another-key-read-first", "lookahead-carried", "first-offset", "empty-plaintext", "exact-multiple", "write-spans-2-segments",
+	core.DeclareProbes("reader-error-wraps-eof", "neighbour-writer-open-across-the-judged-stream", "stream-of-another-key-read-first", "lookahead-carried", "first-offset", "empty-plaintext", "exact-multiple", "write-spans-2-segments",
 		"zero-length-write", "zero-length-read", "read-buffer-smaller-than-segment", "unreader-replay-2nd-key", "unreader-replay-3rd+-key",
 		"error-in-header", "error-in-first-segment", "error-in-last-segment", "error-at-len-ct", "write-after-close", "double-close",
 		"ref-decodes-tink", "tink-decodes-ref", "more-than-65536-segments", "crash-image-read-back", "keyset-through-serialization", "write-retried-after-error", "keyset-level", "subtle-level", "zero-nil-from-tink-reader")
@@ -198,6 +198,7 @@ type readCfg struct {
 	zeroBudget  int
 	eofWithData bool
 	failAt      int
+	failErr     error // what the failing source returns (nil = the plain sentinel)
 }
 
 type readResult struct {
@@ -217,6 +218,7 @@ func readBack(r *core.Run, a tink.StreamingAEAD, data, aad []byte, rc readCfg, e
 	src.ZeroBudget = rc.zeroBudget
 	src.EOFWithData = rc.eofWithData
 	src.FailAt = rc.failAt
+	src.FailErr = rc.failErr
 	res := &readResult{src: src}
 	defer func() {
 		if r.Tracing() {
@@ -744,6 +746,16 @@ func runStream(t *rapid.T) {
 	case "F2":
 		rc2 := rc
 		rc2.failAt, posClass = drawOffset(t, p, ctLen, true)
+		// the persistent error is the plain sentinel, or an error that merely wraps io.EOF / io.ErrUnexpectedEOF (a
+		// transport error formatted with %w): a reader announces the end of its data with io.EOF itself, nothing else
+		switch rapid.IntRange(0, 3).Draw(t, "readerErrKind") {
+		case 2:
+			rc2.failErr = simio.ErrInjectedWrapsEOF
+			r.Probe("reader-error-wraps-eof")
+		case 3:
+			rc2.failErr = simio.ErrInjectedWrapsUnexpectedEOF
+			r.Probe("reader-error-wraps-eof")
+		}
 		rr := readBack(r, dec, ct, aad, rc2, ptLen)
 		noteSource(r, rr)
 		if rr.src.FailHits > 0 {
